@@ -38,7 +38,7 @@ def sweep_programs():
     import re as _re
     from ckl.interpreter import Interpreter
     it = Interpreter(True, True)
-    skip = _re.compile(r"random|timestamp|^now$|^date$|sleep|exit|readln|^read|input|execute|^run$|^eval$|bind_native|set_seed|^info$|^ls$|^body$")
+    skip = _re.compile(r"random|timestamp|^now$|^date$|sleep|exit|readln|^read|input|execute|^run$|^eval$|bind_native|set_seed|^info$|^ls$|^body$|^permutations$")
     names = sorted(n for n in it.base_environment.getSymbols() if it.base_environment.get(n).isFunc() and not skip.search(n))
     header = ("def S = <<'pear', 'fig', 'apple', 'kiwi', 'plum', 'a', 'B', 'lime', 'nut'>>; def T = <<'yam', 'fig', 'pea', 'oat', 'rye'>>; "
               "def M = <<<'pear' => 1, 'fig' => 2, 'apple' => 3, 'kiwi' => 4, 'plum' => 5, 'a' => 6>>>; def K = fn(x) length(x); ")
@@ -197,13 +197,20 @@ def run(ctx):
     # ---------------- the model evaluator has no hash order at all: its answer must be the implementation's
     if ctx.build.ok:
         idx = list(range(len(progs)))
-        reqs = [session.model_request([progs[i]], legacy=True) for i in idx]
-        resp = core.run_driver(reqs)
+        # the model evaluator on the REAL base environment: legacy.ckl and every bundled module source evaluated by the model itself
+        outs, why = session.run_lib_sessions([[progs[i]] for i in idx], legacy=True, fuel=60000)
+        if outs is None:
+            ctx.disagreements += 1
+            ctx.violation("correspondence", f"the model evaluator cannot build the base environment from the bundled sources: {why[:300]}",
+                          {"op": "libsetup", "correspondence": "Ckl.eval on legacy.ckl vs get_base_environment"})
+            outs = []
         s = session.ImplSession(legacy=True)
         try:
-            for i, r in zip(idx, resp):
-                model, _ = session.parse_model_session(r)
+            for i, model in zip(idx, outs):
                 m = model[0]
+                if session.uses_constant_native(progs[i].rsplit("; ", 1)[-1]):
+                    ctx.count("model_skipped_constant_native")
+                    continue
                 ctx.count("model_programs")
                 if m[0][0] == 'fail':
                     ctx.count("model_abstains")
